@@ -131,6 +131,7 @@ func checkC11(c *Check) {
 			rtErrorSemantics(a, v, 3)
 			rtReuseSemantics(a, v, "R-parse-semantics", "Init/parse: nil exactly on a match with the final tokens published, else the first non-empty token that reached furthest")
 			rtEntrySemantics(a, v)
+			rtErrorStable(a, v)
 		}
 		rtRune(a, v)
 	})
